@@ -640,6 +640,7 @@ pub fn run_main(args: &Args) -> i32 {
             "minimiser_probes": m.probes,
             "differing_launch": m.differing,
             "reproduced_via": m.route,
+            "deterministic": !m.route.starts_with("statistical"),
             "original": spec.to_json(),
             "original_differing_launch": differing,
             "how_to_replay": "./check C13 --replay <this file>",
@@ -780,8 +781,19 @@ pub fn replay_main(args: &Args) -> i32 {
     args.run_id = format!("C13-replay-{}", std::process::id());
     let run_dir = args.work.join(&args.run_id);
     let _ = fs::create_dir_all(&run_dir);
+    let deterministic = v.get("deterministic").and_then(Value::as_bool).unwrap_or(true);
     let mut prober = sim_min::Prober::new(&args);
-    let probe = prober.probe(&spec);
+    let mut probe = prober.probe(&spec);
+    if !deterministic {
+        // the recorded difference depends on something the simulator does not own: sample
+        let mut tries = 1;
+        while tries < 60 && !probe.as_ref().is_some_and(|p| p.signature().is_some()) {
+            prober.fresh_process();
+            probe = prober.probe(&spec);
+            tries += 1;
+        }
+        println!("replay: recorded as not deterministic; {tries} fresh process(es) tried");
+    }
     drop(prober);
     let _ = fs::remove_dir_all(&run_dir);
     let Some(p) = probe else {
